@@ -29,13 +29,16 @@ let () =
   iter_lines (fun l ->
     match split_tab l with
     | ["tok"; f] -> print_endline (tokens_str (parse_line (str_of_field f)))
+    | ["rt"; f] -> let s = str_of_field f in
+        print_endline ("T=" ^ tokens_str (parse_line s) ^ " R=" ^ tokens_str (parse_line (rerender s)) ^ " L=" ^ q (rerender s))
     | ["rer"; f] -> print_endline (q (rerender (str_of_field f)))
     | "xa" :: f :: args ->
         print_endline (xres q (expand_args (str_of_field f) (List.map str_of_field args)))
-    | "xafix" :: f :: args ->
-        print_endline (xres q (expand_args_fixed (str_of_field f) (List.map str_of_field args)))
     | "xone" :: f :: args ->
         print_endline (xres q (expand_args_for_single_token (str_of_field f) (List.map str_of_field args)))
+    | ["fold"; f] -> print_endline (q (fold_lines (str_of_field f)))
+    | ["foldfix"; f] -> print_endline (q (fold_lines_fixed (str_of_field f)))
+    | ["nocont"; f] -> print_endline (if no_cont (str_of_field f) then "1" else "0")
     | ["isargs"; f] -> print_endline (if is_args_in_token (str_of_field f) then "1" else "0")
     | ["nopos"; f] -> print_endline (if no_positional (str_of_field f) then "1" else "0")
     | ["wrap"; t; f] -> print_endline (q (wrap_sep_string (tag_of_field t) (str_of_field f)))
@@ -45,8 +48,6 @@ let () =
         let s = str_of_field f in
         (match expand_args s (List.map str_of_field args) with
          | XOk r -> print_endline ("c=" ^ (if is_complete s then "1" else "0") ^ " p=" ^ (if no_positional s then "0" else "1") ^
-                                   (let k = c16_classes s in let b x = if x then "1" else "0" in
-                                    " k=" ^ b k.k_esc ^ b k.k_glue ^ b k.k_paren ^ b k.k_orglue) ^
                                    " D=" ^ segs_str (seg_tokens s) ^ " S=" ^ segs_str (seg_tokens r))
          | XPanic -> print_endline "PANIC" | XFuel -> print_endline "FUEL")
     | _ -> print_endline "?bad-case") Sys.argv.(1)
